@@ -29,7 +29,7 @@ VALID_LEAF = {
     'anydict': [{'a': 1}], 'anyxml': ['<a/>'],
 }
 
-JUNK = [None, True, False, 0, 1, -1, 2 ** 70, -2 ** 70, 1.5, 1.0, float('inf'), float('-inf'), float('nan'), '', 'abc', '13',
+JUNK = ['\x00', '\x0b', '\ud800x', None, True, False, 0, 1, -1, 2 ** 70, -2 ** 70, 1.5, 1.0, float('inf'), float('-inf'), float('nan'), '', 'abc', '13',
         '2020-13-45', '2020-01-02T25:61:61', '25:00:00', '2020-01-02T03:04:05+99:00', '2020-01-02T03:04:05-24:00',
         'P99999999999D', '====', 'YQ', 'é', [], [1], [[1]], {}, {'a': 1}, {'x': {'y': {}}}, ['a', 'b'], [None], {'a': [1]},
         '1e400', 'NaN', '-0', '1_0', ' 5 ', '0x10', 'P', 'PT', '-', '9' * 1100, '2020-02-30', '0000-01-01', '99999-01-01',
@@ -59,7 +59,7 @@ KIND_JUNK = {
     'enum': ['blue', '', '__class__', '__init__', 'RED', 'red '], 'text': ['', '\x00' if False else 'x' * 5000],
     'text10': ['x' * 11, ''], 'pattern': ['ABC', '', 'abc1'], 'anydict': ['abc', '', '{'], 'anyxml': ['<a', '', 'abc', '<a/><b/>'],
 }
-GENERAL_JUNK = [None, True, 0, -1, 2 ** 70, 1.5, float('inf'), float('nan'), [], [1], {}, {'a': 1}, ['a', 'b'], [None], b'abc',
+GENERAL_JUNK = ['\x00', 'a\x01b', '\ud800', '\ufffe', '&#1;', None, True, 0, -1, 2 ** 70, 1.5, float('inf'), float('nan'), [], [1], {}, {'a': 1}, ['a', 'b'], [None], b'abc',
                 b'\xff', b'2020-01-02', '%s%s', '5%']
 
 
@@ -132,10 +132,24 @@ def gen_value(rng, desc, ty, depth=3):
     return out
 
 
+class Bare(object):
+    """the single argument of a bare method"""
+    def __init__(self, value, ty):
+        self.value, self.ty = value, ty
+
+
 def gen_request(rng, desc):
-    """-> (method name, {param: value})"""
+    """-> (method name, {param: value})  or  (method name, Bare(value, ty)) for a bare method"""
+    bare = desc.get('bare', [])
+    if bare and rng.random() < len(bare) / float(len(bare) + 2 * len(desc['methods'])):
+        m, ty = rng.choice(bare)
+        return m, Bare(gen_value(rng, desc, ty), ty)
     m, params = rng.choice(desc['methods'])
     return m, dict((pn, gen_value(rng, desc, ty)) for pn, ty in params)
+
+
+def doc_of(m, args):
+    return {m: copy.deepcopy(args.value if isinstance(args, Bare) else args)}
 
 
 def field_index(desc):
@@ -301,7 +315,11 @@ def render_xml(desc, method, args, soap_ns=None):
             c.set('{%s}nil' % XSI, 'true')
         else:
             c.text = _clean(xml_text(v))
-    fill(root, method, args)
+    if isinstance(args, Bare):
+        if args.value is not None:
+            put(root, args.ty, args.value)
+    else:
+        fill(root, method, args)
     if soap_ns:
         env = etree.Element('{%s}Envelope' % soap_ns, nsmap={'e': soap_ns})
         if False:
@@ -312,7 +330,7 @@ def render_xml(desc, method, args, soap_ns=None):
     return root
 
 
-XML_JUNK_TEXT = [None, '', 'abc', '13', '2020-13-45', '2020-01-02T25:61:61', '25:00:00', '2020-01-02T03:04:05+99:00',
+XML_JUNK_TEXT = ['&#1;', '&#0;', '&#xD800;', '&#11;x', None, '', 'abc', '13', '2020-13-45', '2020-01-02T25:61:61', '25:00:00', '2020-01-02T03:04:05+99:00',
                  'P99999999999D', '====', 'YQ', 'é', '1e400', 'NaN', '-0', '1_0', ' 5 ', '0x10', 'P', 'PT', '9' * 1100,
                  '2020-02-30', '0000-01-01', '2020-01-02+25:00', 'true', 'maybe', '24:00:00', '03:04:60', '12:00:00.',
                  'blue', '__class__', '%s%s', '5%', '0001-01-01T00:00:00+14:00', '9999-12-31T23:59:59-14:00', 'red',
@@ -449,6 +467,10 @@ CORPUS = {
             b'<g xmlns="tns" xmlns:xsi="http://www.w3.org/2001/XMLSchema-instance" xmlns:t="tns"><i xsi:type="t:Outer"><m>1</m></i></g>',
             b'<g xmlns="tns" xmlns:xsi="http://www.w3.org/2001/XMLSchema-instance" xsi:nil="true"/>',
             b'<g xmlns="tns"><dt>0001-01-01T00:00:00+14:00</dt></g>', b'<g xmlns="tns"><i>' + b'9' * 5000 + b'</i></g>',
+            b'<bi xmlns="tns"/>', b'<bi xmlns="tns" xmlns:xsi="http://www.w3.org/2001/XMLSchema-instance" xsi:nil="true"/>',
+            b'<bi xmlns="tns">x</bi>', b'<bi xmlns="tns"><zz/></bi>', b'<ba xmlns="tns"/>', b'<ba xmlns="tns"><integer>x</integer></ba>',
+            b'<bc xmlns="tns"/>', b'<bc xmlns="tns" xmlns:xsi="http://www.w3.org/2001/XMLSchema-instance" xsi:nil="true"/>',
+            b'<bd xmlns="tns">2020-13-45T00:00:00</bd>', b'<bt xmlns="tns"/>', b'<g xmlns="tns"><i>&amp;#1;<zz/></i></g>',
             b'<f xmlns="tns"><o><m/></o></f>', b'<f xmlns="tns"><o><e/></o></f>', b'<f xmlns="tns"><o><e>blue</e></o></f>'],
     'soap11': [b'', env11(''), env11('text'), env11('<e:Fault><faultcode>x</faultcode><faultstring>y</faultstring></e:Fault>'),
                env11('<e:Fault/>'), ('<e:Envelope xmlns:e="%s"><e:Header/></e:Envelope>' % S11).encode(),
@@ -468,6 +490,10 @@ CORPUS = {
     'json': [b'', b'{', b'\xff', b'[' * 100000, b'[' * 3000 + b']' * 3000, b'{"a":' * 100000, b'nul', b'NaN', b'1e999',
              b'"\\ud800"', b'{"f":1,"f":2}', b'{"f":{"o":{"i":1,"i":"x"}}}', b'\xef\xbb\xbf{}', b'{"h":{}} x', b'1' * 5000,
              b'[1,2', b'"abc', b'{"h": {}}\x00', b'{}', b'[]', b'null', b'true', b'5', b'"h"', b'{"h":{},"g":{}}',
+             b'{"bi": null}', b'{"bi": 5}', b'{"bi": [1]}', b'{"bi": "x"}', b'{"bi": {"bi": 5}}', b'{"ba": null}', b'{"ba": 5}',
+             b'{"ba": [1, "x"]}', b'{"bc": null}', b'{"bc": 5}', b'{"bc": {"a": "x"}}', b'{"bd": "\\u0000"}', b'{"bt": 5}',
+             b'{"g": {"dt": "\\u0000"}}', b'{"g": {"s": "\\ud800"}}',
+             b'{"\\u0000": {}}', b'{"\\ud800": {}}', b'{"h\\u0001": {}}', b'{"f": {"o": {"\\u0000": 1, "e": "\\u0000", "u": "\\u0001"}}}',
              b'{"zz":{}}', b'{"":{}}', b'{"H":{}}', b'{"g": null}', b'{"f": null}', b'{"h": null}', b'{"h": 5}', b'{"h": [1]}',
              b'{"f": 5}', b'{"f": "x"}', b'{"f": [1,2,3]}', b'{"f": {"o": 5}}', b'{"f": {"o": "abc"}}', b'{"f": {"o": [1,2,3]}}',
              b'{"f": {"o": {"i": NaN}}}', b'{"f": {"o": {"i": Infinity}}}', b'{"f": {"o": {"i": 1e400}}}',
@@ -520,3 +546,72 @@ WSGI_VARIANTS = [
     dict(extra={'CONTENT_LENGTH': '3'}), dict(clen=False), dict(path='/a/b/%ff/'), dict(path=''), dict(path='/\xff'),
     dict(qs='wsdl'), dict(qs='a=%ff&b'), dict(extra={'HTTP_SOAPACTION': '"zz"'}), dict(extra={'HTTP_HOST': 'x:y:z'}),
 ]
+
+
+# ------------------------------------------------------------------ Content-Type grammar
+MIME = {'xml': 'text/xml', 'soap11': 'text/xml', 'soap12': 'application/soap+xml', 'json': 'application/json',
+        'yaml': 'text/yaml', 'msgpack': 'application/x-msgpack', 'mprpc': 'application/x-msgpack'}
+# text encodings, non-text codecs (bytes.decode refuses them with LookupError), codecs whose decoder
+# raises a plain UnicodeError, platform-dependent and unknown names
+CODECS = ['utf-8', 'UTF-8', 'utf8', 'u8', 'latin-1', 'ascii', 'utf-16', 'utf-16-le', 'utf-32', 'utf-7', 'utf_8_sig', 'cp037',
+          'cp1252', 'big5', 'shift_jis', 'iso2022_jp', 'idna', 'punycode', 'undefined', 'unicode_escape',
+          'raw_unicode_escape', 'charmap', 'hex', 'hex_codec', 'rot13', 'rot_13', 'base64', 'base_64', 'bz2', 'zlib', 'uu',
+          'quopri', 'mbcs', 'oem', 'string_escape', 'bogus', 'none', 'None', '0', 'utf-8 ', ' utf-8', 'utf-8\t', 'utf–8',
+          'ütf-8', 'utf-8\x00', 'a\x00b', 'u' * 20000, '../../etc/passwd', 'encodings', 'aliases', '__init__', 'utf_8.py']
+
+
+def charset_forms(v):
+    """the ways a parameter value can be spelt (RFC 2045 token / quoted-string, RFC 2231 extended
+    and continued parameters, duplicates, case, stray quotes)"""
+    h = max(1, len(v) // 2)
+    return ['charset=%s' % v, 'charset="%s"' % v, 'CHARSET=%s' % v, 'Charset = %s' % v, ' charset=%s ;' % v,
+            "charset*=utf-8''%s" % v, "charset*=''%s" % v, "charset*=utf-8'en'%s" % v, "charset*=%s" % v,
+            'charset*0=%s; charset*1=%s' % (v[:h], v[h:]), "charset*0*=utf-8''%s; charset*1*=%s" % (v[:h], v[h:]),
+            'charset*1=%s' % v, 'charset=%s; charset=bogus' % v, 'charset=bogus; charset=%s' % v,
+            "charset='%s'" % v, 'charset="%s' % v, 'charset=%s"' % v, 'charset=\\%s' % v, 'charset=%s; charset*=utf-8\'\'hex' % v,
+            'x=1; charset=%s; y="a;b"' % v, 'charset=(comment)%s' % v, 'charset=%s,utf-8' % v]
+
+
+CONTENT_TYPE_JUNK = ['', ' ', ';', ';;;', '/', 'text', 'text/', '/xml', '%(m)s;', '; charset=utf-8', '%(m)s; =utf-8', '%(m)s; charset',
+                     '%(m)s; charset=', '%(m)s; charset==', '%(m)s;charset', '%(m)s; charset="', '%(m)s; charset=""',
+                     '%(m)s; ' + 'x' * 20000, '%(m)s' + '; a=b' * 3000, 'TEXT/XML; CHARSET=UTF-8', '%(m)s, text/plain; charset=hex',
+                     '%(m)s; charset=utf-8; q=0.5; version=1.1; action="x"', '\xff\xfe', '%(m)s\r\nX-Injected: y',
+                     '%(m)s; charset=utf-8\n', '\x00', '%(m)s\x00; charset=utf-8', '*/*', '%(m)s; charset*', '%(m)s; charset**=x',
+                     '%(m)s; charset*0*=', "%(m)s; charset*=utf-8''", "%(m)s; charset*='", '%(m)s; *=utf-8', '%(m)s; *0*=x',
+                     'application/x-www-form-urlencoded', 'application/x-www-form-urlencoded; charset=hex',
+                     'multipart/form-data; boundary=x', 'multipart/form-data', 'multipart/related', 'multipart/related; boundary=',
+                     'multipart/related; boundary="x"', "multipart/related; boundary*=utf-8''x", 'multipart/related; boundary*0=x',
+                     'multipart/related; boundary*0*=utf-8\'\'x; boundary*1*=y', 'multipart/related; boundary=x; boundary=y',
+                     'multipart/related; type="text/xml"; start="<a>"; boundary=x; charset=hex',
+                     'multipart/related; type="text/xml"; start="<a>"; boundary=x; charset*=utf-8\'\'utf-8',
+                     'multipart/related; type=text/xml; start=a; boundary=x', 'multipart/related; boundary=' + 'b' * 300,
+                     'multipart/related; boundary=\xfc', 'multipart/mixed; boundary=x', 'MULTIPART/RELATED; BOUNDARY=x']
+
+
+def content_types(rng, proto, quick):
+    m = MIME[proto]
+    out = [j % {'m': m} if '%(m)s' in j else j for j in CONTENT_TYPE_JUNK]
+    codecs = CODECS if not quick else CODECS[:40]
+    for v in codecs:
+        forms = charset_forms(v)
+        picked = forms[:3] + (rng.sample(forms[3:], 3 if quick else len(forms) - 3))
+        if v in ('utf-8', 'hex', 'punycode', 'bogus', 'utf-16'):
+            picked = forms
+        out.extend('%s; %s' % (m, f) for f in picked)
+    return out
+
+
+def multipart_bodies(soap_body):
+    """multipart/related wrappings of a SOAP request (SwA): well-formed and broken"""
+    p = b'Content-Type: text/xml; charset=utf-8\r\nContent-Id: <a>\r\n\r\n'
+    return [b'--x\r\n' + p + soap_body + b'\r\n--x--', b'--x\r\n' + p + soap_body, b'--y\r\n' + p + soap_body + b'\r\n--y--',
+            b'--x\r\n\r\n' + soap_body + b'\r\n--x--', b'--x--', b'--x\r\n--x\r\n--x--', soap_body,
+            b'--x\r\nContent-Type: text/xml; charset=hex\r\nContent-Id: <a>\r\n\r\n' + soap_body + b'\r\n--x--',
+            b'--x\r\nContent-Type: text/xml; charset*=utf-8\'\'utf-8\r\nContent-Location: a\r\n\r\n' + soap_body + b'\r\n--x--',
+            b'--x\r\nContent-Type: \xff\r\nContent-Id: <\x00>\r\n\r\n' + soap_body + b'\r\n--x--',
+            b'--x\r\n' + p + soap_body + b'\r\n--x\r\nContent-Type: application/octet-stream\r\nContent-Id: <b>\r\n\r\n\x00\xff\r\n--x--',
+            b'--x\r\nContent-Type: multipart/related; boundary=x\r\n\r\n--x\r\n' + p + soap_body + b'\r\n--x--\r\n--x--']
+
+# msgpack-rpc requests to bare methods (MessagePackRpc does not support them: known finding)
+CORPUS_MPRPC_BARE = [b'\x94\x00\x01\xa3bdu\xc0', b'\x94\x00\x01\xa2bi\x91\x05', b'\x94\x00\x01\xa2bi\xc0', b'\x94\x00\x01\xa2bc\x91\x81\xa1a\x01',
+                     b'\x93\x00\x01\xa2ba']
